@@ -8,6 +8,7 @@
 #include "TinyJAMBU.h"
 extern unsigned long tjv_hm_inits, tjv_hm_finals, tjv_hm_reinits;
 extern uint8_t tjv_hm_last4[4]; extern int tjv_hm_have4;
+extern const unsigned char *tjv_pw, *tjv_salt; extern size_t tjv_pwlen, tjv_saltlen, tjv_gg; extern unsigned char tjv_acc, tjv_acc_prev;
 unsigned long tjv_count;           /* the iteration count of this call (ghost copy) */
 size_t tjv_g;
 unsigned char *tjv_out0;
@@ -34,11 +35,17 @@ void harness(void)
   tjv_out0 = out;
   tjv_g = nondet_size(); __CPROVER_assume(tjv_g < outlen || outlen == 0);
   unsigned char pw[1], salt[1];
+  tjv_pw = pw; tjv_salt = salt; tjv_pwlen = pl; tjv_saltlen = sl;
+  tjv_gg = nondet_size(); __CPROVER_assume(tjv_gg < 32);
   tjv_hm_inits = 0; tjv_hm_finals = 0; tjv_hm_reinits = 0; tjv_hm_have4 = 0;
   tinyjambu_pbkdf2(out, outlen, pw, pl, salt, sl, count);
   TJV_REACH_HERE("after pbkdf2 (shape)");
   size_t blocks = (outlen + 31) / 32;
   unsigned long per = count ? count : 1;
   __CPROVER_assert(tjv_hm_inits == blocks, "C14: one F evaluation per 32-byte output block, ceil(outlen/32) in total");
-  (void)per;   /* per-block PRF count and block numbering are asserted inside the HMAC stubs at every block */
+  (void)per;
+#ifdef TJV_OL
+  /* block 1 (32 full bytes, written directly into out): T_1[g] = U_1[g] ^ U_2[g] ^ ... ^ U_c[g] for every count */
+  __CPROVER_assert(out[tjv_gg] == tjv_acc_prev, "C14: block == XOR of the count-fold PRF chain U_1 ^ U_2 ^ ... ^ U_c (every count)");
+#endif   /* per-block PRF count and block numbering are asserted inside the HMAC stubs at every block */
 }
